@@ -13,6 +13,7 @@
  *   a BYTES CODE KIND    allocate; KIND e=exact root, i=interior root, d=dropped at once
  *   z BYTES CODE KIND    the same through stoCAlloc (the block must come back zeroed)
  *   f SLOT               free
+ *   F SLOT               free, but leave the block's root word behind (dangling pointer in a root)
  *   r SLOT BYTES         resize
  *   c SLOT CODE          recode
  *   d SLOT               drop (owner forgets the block)
@@ -380,6 +381,8 @@ static long opAlloc(unsigned long bytes, unsigned code, int kind)
 	return nB - 1;
 }
 
+static int keepStaleRoot;	/* next opFree leaves the block's root word behind as a dangling pointer */
+
 static void opFree(long ix)
 {
 	struct blk *b = &B[ix];
@@ -387,6 +390,12 @@ static void opFree(long ix)
 	unsigned long fb = freeBad;
 	long c;
 	checkBlock(ix, "before free");
+	if (keepStaleRoot && b->rootIx >= 0) {
+		/* The owner keeps a pointer it will never use again: legal, and a conservative
+		 * collector must cope with root words that point into free storage. */
+		b->rootIx = -1;
+	}
+	keepStaleRoot = 0;
 	rootClear(b);
 	if (b->holder >= 0) unlinkChild(b->holder);
 	c = unlinkChild(ix);
@@ -539,6 +548,10 @@ int main(int argc, char **argv)
 		case 'f':
 			sscanf(line, "f %lu", &a);
 			if ((ix = pickLive(a)) >= 0) opFree(ix);
+			break;
+		case 'F':	/* free, but a stale root word keeps pointing into the freed block */
+			sscanf(line, "F %lu", &a);
+			if ((ix = pickLive(a)) >= 0 && nRoots < MAXBLK - 8) { keepStaleRoot = 1; opFree(ix); }
 			break;
 		case 'r':
 			sscanf(line, "r %lu %lu", &a, &b);
